@@ -87,3 +87,14 @@ Theorem C02_unsolvable_core_refutes : forall db evs n conf core,
   forall a : asg, a VRoot = true ->
   (forall i c, In i core -> nth_error db (N.to_nat i) = Some c -> cl_true a (cl_lits c) = true) -> False.
 Proof. exact checked_conflict_is_refutation. Qed.
+
+(* the conflicts Solver::propagate reports (model: Cdcl/Propagate.v, compared with
+   the implementation at every call) are clauses falsified by the trail, and its
+   assignments are justified: the inputs of conflict analysis are genuine *)
+From Resolvo Require Import Cdcl.PropagateHyp.
+Theorem C02_checked_propagate_sound : forall db level asserts units st st' r,
+  prop_hyps db asserts units st = true ->
+  propagate db level asserts units st = Some (st', r) ->
+  grows db (ps_trail st) (ps_trail st') /\
+  (forall o id, r = Some (o, id) -> exists c, nth_error db (N.to_nat id) = Some c /\ falsified (ps_trail st') (cl_lits c) = true).
+Proof. exact checked_propagate_sound. Qed.
